@@ -42,7 +42,10 @@ def exec_for(ex, s: ast.For, st):
         if name in w:
             raise Unsupported("loop variable assigned in the body")
         # freeze the bounds (range() evaluates its arguments once)
+        prior = st.vars.get(name)
+        prior_unbound = st.unbound.get(name)
         st.vars[name] = V(INT, lo)
+        st.unbound.pop(name, None)
         if step == 1:
             rng = lambda i: z3.And(lo <= i, z3.Or(i <= hi, i == lo))
             enter = lambda i: i < hi
@@ -60,7 +63,16 @@ def exec_for(ex, s: ast.For, st):
             s2.vars[name] = V(INT, iv + step)
 
         def after(exs):
-            exs.vars.pop(name, None)  # python leaves the last value, not the bound: treat as undefined
+            # python leaves the LAST value taken (not the bound); if the loop never ran the name keeps its
+            # earlier binding, or stays unbound
+            ran = (iv > lo) if step == 1 else (iv < lo)
+            if prior is not None and prior.z is not None and prior.t == INT:
+                exs.vars[name] = V(INT, z3.If(ran, iv - step, prior.z))
+                if prior_unbound is not None:
+                    exs.unbound[name] = z3.And(z3.Not(ran), prior_unbound)
+            else:
+                exs.vars[name] = V(INT, iv - step)
+                exs.unbound[name] = z3.Not(ran)
 
         out = []
         res = ex.loop_body_and_exit(s, h, enter(iv), z3.Not(enter(iv)), k, ls, stepf, line, after_leave=after)
